@@ -27,7 +27,7 @@ var properties = []Property{
 		LevelNote:  "Trusted: go/types+go/ssa. The typestate treats any type test of the current token as 'seen'. Acceptance completeness is only covered through GRAM.table/chain.",
 	}, 
 	{ID: "C03", Title: "Untrusted input never crashes the library: a result or an error, always",
-		Rules:     []string{"TAG.access", "TAG.exprtoken", "PANIC.assert", "PANIC.div", "PANIC.shift", "CONV.tag", "CONV.identity"},
+		Rules:     []string{"TAG.access", "TAG.exprtoken", "PANIC.assert", "PANIC.div", "PANIC.shift", "PANIC.recover", "PANIC.result", "PANIC.explicit", "PANIC.ifacecmp", "PANIC.progress", "PANIC.nilres", "CONV.tag", "CONV.identity"},
 		Technique: "panic-site inventory with dominating-guard / typestate discharge over go/ssa",
 	},
 	 {ID: "C04"}, {ID: "C05"}, 
